@@ -229,16 +229,16 @@ def generate(ctx):
     for _ in range(ctx.n(500, 6000)):
         img, h, w = _rand_image(rng, big, cnt)
         cases.append(_mk("loop", img, h, w, order=_rand_order(rng, img)))
-    for _ in range(ctx.n(250, 3000)):
+    for _ in range(ctx.n(250, 2000)):
         img, h, w = _rand_image(rng, big, cnt)
         if h * w == 0:
             continue
         o = rng.permutation(h * w) * int(rng.choice([1, 1, 3])) - int(rng.choice([0, 0, 50]))
         cases.append(_mk("skel_ord", img, h, w, ord=o.reshape(h, w).tolist()))
-    for _ in range(ctx.n(250, 3000)):
+    for _ in range(ctx.n(250, 2000)):
         img, h, w = _rand_image(rng, big, cnt)
         cases.append(_mk("skel", img, h, w))
-    for _ in range(ctx.n(100, 1200)):
+    for _ in range(ctx.n(100, 600)):
         cases.append(_rand_labels(rng, min(big, 24), cnt))
     for c in cases:
         ctx.count("fn:" + c["fn"])
@@ -488,6 +488,7 @@ def _hole_free_not_point(a, s):
 
 def check(ctx, cases, outs):
     res = [None] * len(cases)
+    extra = {}         # clauses beyond topology (reported only when the topology verdict is clean)
     jobs = []          # (case index, H, W, before, after, what)
     for k, (c, o) in enumerate(zip(cases, outs)):
         if _bad(o):
@@ -514,9 +515,9 @@ def check(ctx, cases, outs):
             continue
         jobs.append((k, h, w, c["img"], o["out"], c["fn"]))
         if "again" in o and o["again"] != o["out"]:
-            res[k] = "%s run to convergence is not idempotent" % c["fn"]
-        if c["fn"] == "shrink" and c["it"] == -1 and res[k] is None:
-            res[k] = _hole_free_not_point(_arr(c), np.array(o["out"], bool).reshape(h, w))
+            extra[k] = "%s run to convergence is not idempotent" % c["fn"]
+        elif c["fn"] == "shrink" and c["it"] == -1:
+            extra[k] = _hole_free_not_point(_arr(c), np.array(o["out"], bool).reshape(h, w))
     verdicts = ctx.run_model("entry_topo_check", [[h, w, a, b] for (_, h, w, a, b, _) in jobs]) if jobs else []
     for (k, h, w, a, b, what), v in zip(jobs, verdicts):
         if res[k] is not None:
@@ -527,6 +528,9 @@ def check(ctx, cases, outs):
                 what, "; " + cc if cc else "; NOTE: the component-counting check sees no change")
         elif cc:
             res[k] = "%s: %s (component-counting check; topo_check accepted - checker inconsistency)" % (what, cc)
+    for k, v in extra.items():
+        if res[k] is None and v:
+            res[k] = v
     return res
 
 
